@@ -298,7 +298,7 @@ def run(eng, rep) -> None:
                     continue
                 seen_ns.add((w, tq))
                 rep.violation("R06.5", "plugins/fcp_can_c/templates/can_signal_parser.c", name, "`<<` by a variable count computed in %d-bit int, then widened to %s" % (w, tq),
-                              "the shift is evaluated in a %d-bit integer and only afterwards converted to %s: for counts of %d and more the mask/bit is wrong (signals wider than %d bits)" % (w, tq, w - 1, w))
+                              "the shift is evaluated in a %d-bit integer and only afterwards converted to %s: for counts of %d and more the mask/bit is wrong (signals wider than %d bits)" % (w, tq, w - 1, w))["construct_level"] = True
 
 
 def possible_keys(e: ast.AST):
